@@ -1183,3 +1183,228 @@ Proof.
   rewrite forallb_forall in E. specialize (E it Hin). rewrite bad_item_not_ok in E by exact Hbad. discriminate.
 Qed.
 End Streams.
+
+(** * a strictly sorted in-range table never exceeds max_size (so a valid stream is always accepted) *)
+Definition upper_keys_upto (K m : nat) : list key :=
+  flat_map (fun i => map (fun j => (i, j)) (zrange i (K - Z.to_nat i))) (zrange 0 m).
+Definition upper_keys (N : nat) : list key := upper_keys_upto N N.
+Definition square_keys (N : nat) : list key := list_prod (zrange 0 N) (zrange 0 N).
+
+Lemma in_upper_keys N i j : In (i, j) (upper_keys N) <-> 0 <= i <= j /\ j < Z.of_nat N.
+Proof.
+  unfold upper_keys, upper_keys_upto. rewrite in_flat_map. split.
+  - intros (x & Hx & Hin). apply in_zrange in Hx. apply in_map_iff in Hin.
+    destruct Hin as (y & Heq & Hy). inversion Heq; subst. apply in_zrange in Hy. lia.
+  - intros H. exists i. split; [apply in_zrange; lia|]. apply in_map_iff. exists j. split; [reflexivity|].
+    apply in_zrange. lia.
+Qed.
+
+Lemma in_square_keys N i j : In (i, j) (square_keys N) <-> 0 <= i < Z.of_nat N /\ 0 <= j < Z.of_nat N.
+Proof. unfold square_keys. rewrite in_prod_iff, !in_zrange. lia. Qed.
+
+Lemma upper_keys_length_gen (K : nat) : forall m, (m <= K)%nat ->
+  2 * Z.of_nat (length (upper_keys_upto K m))
+  = Z.of_nat m * (2 * Z.of_nat K - Z.of_nat m + 1).
+Proof.
+  unfold upper_keys_upto. induction m as [|m IH]; intros Hm; [reflexivity|].
+  rewrite zrange_S, flat_map_app, app_length. cbn [flat_map]. rewrite app_nil_r, map_length, zrange_length.
+  rewrite Nat2Z.inj_add. specialize (IH ltac:(lia)).
+  replace (Z.to_nat (0 + Z.of_nat m)) with m by lia.
+  match goal with |- context[Z.of_nat (length ?x)] => set (L := Z.of_nat (length x)) in * end.
+  change (2 * L = Z.of_nat m * (2 * Z.of_nat K - Z.of_nat m + 1)) in IH. clearbody L.
+  rewrite Nat2Z.inj_sub by lia. rewrite Nat2Z.inj_succ. nia.
+Qed.
+
+Lemma upper_keys_length N : 2 * Z.of_nat (length (upper_keys N)) = Z.of_nat N * (Z.of_nat N + 1).
+Proof. unfold upper_keys. rewrite (upper_keys_length_gen N N) by lia. nia. Qed.
+
+Lemma square_keys_length N : Z.of_nat (length (square_keys N)) = Z.of_nat N * Z.of_nat N.
+Proof. unfold square_keys, key. rewrite prod_length, zrange_length. lia. Qed.
+
+Lemma max_size_upper n : 0 <= n -> 2 * max_size n true = n * (n + 1).
+Proof.
+  intros Hn. unfold max_size.
+  assert (He : exists q, n * (n - 1) = 2 * q).
+  { destruct (Z.even n) eqn:E.
+    - apply Z.even_spec in E. destruct E as [k ->]. exists (k * (2 * k - 1)). nia.
+    - assert (Ho : Z.odd n = true) by (rewrite <- Z.negb_even, E; reflexivity).
+      apply Z.odd_spec in Ho. destruct Ho as [k ->]. exists ((2 * k + 1) * k). nia. }
+  destruct He as [q Hq]. rewrite Hq.
+  assert (Hd : 2 * q / 2 = q) by (rewrite (Z.mul_comm 2 q); apply Z.div_mul; lia).
+  rewrite Hd. nia.
+Qed.
+
+Theorem sorted_table_fits_max_size {V} (n : Z) (su : bool) (rows : list (key * V)) :
+  0 <= n ->
+  StronglySorted klt (map fst rows) ->
+  Forall (fun r => 0 <= fst (fst r) < n /\ 0 <= snd (fst r) < n) rows ->
+  (su = true -> Forall (fun r => fst (fst r) <= snd (fst r)) rows) ->
+  zlen rows <= max_size n su.
+Proof.
+  intros Hn Hs Hr Hu.
+  assert (Hnd : NoDup (map fst rows)) by (apply SS_NoDup; exact Hs).
+  unfold zlen. rewrite <- (map_length fst rows).
+  destruct su.
+  - specialize (Hu eq_refl).
+    assert (Hincl : incl (map fst rows) (upper_keys (Z.to_nat n))).
+    { intros [i j] Hin. apply in_map_iff in Hin. destruct Hin as ([[a b] v] & Heq & Hin).
+      simpl in Heq. inversion Heq; subst a b.
+      rewrite Forall_forall in Hr, Hu. specialize (Hr _ Hin). specialize (Hu _ Hin).
+      simpl in Hr, Hu. apply in_upper_keys. lia. }
+    pose proof (NoDup_incl_length Hnd Hincl) as Hlen.
+    pose proof (upper_keys_length (Z.to_nat n)) as HL. pose proof (max_size_upper n Hn) as HM.
+    rewrite Z2Nat.id in HL by lia. lia.
+  - assert (Hincl : incl (map fst rows) (square_keys (Z.to_nat n))).
+    { intros [i j] Hin. apply in_map_iff in Hin. destruct Hin as ([[a b] v] & Heq & Hin).
+      simpl in Heq. inversion Heq; subst a b.
+      rewrite Forall_forall in Hr. specialize (Hr _ Hin).
+      simpl in Hr. apply in_square_keys. lia. }
+    pose proof (NoDup_incl_length Hnd Hincl) as Hlen.
+    pose proof (square_keys_length (Z.to_nat n)) as HL. rewrite Z2Nat.id in HL by lia.
+    unfold max_size. lia.
+Qed.
+
+Lemma NoDup_app_parts {T} (a b : list T) : NoDup (a ++ b) -> NoDup a /\ NoDup b.
+Proof.
+  induction a as [|x a IH]; simpl; intros H; [split; [constructor|exact H]|].
+  inversion H; subst. destruct (IH H3) as [Ha Hb]. split; [|exact Hb].
+  constructor; [|exact Ha]. intros Hin. apply H2. apply in_app_iff. now left.
+Qed.
+
+Lemma NoDup_concat_chunks {T U} (g : T -> U) (chunks : list (list T)) :
+  NoDup (map g (concat chunks)) -> Forall (fun c => NoDup (map g c)) chunks.
+Proof.
+  induction chunks as [|c t IH]; simpl; intros H; [constructor|].
+  rewrite map_app in H. constructor.
+  - apply (NoDup_app_parts _ _ H).
+  - apply IH. apply (NoDup_app_parts _ _ H).
+Qed.
+
+Section ValidStream.
+Context {V : Type}.
+Notation rowT := (key * V)%type.
+Variable dflt : rowT.
+Variable fits : rowT -> bool.
+Variable count : option (rowT -> Z).
+
+(** C01 end to end: EVERY strictly sorted, in-range (upper-triangular in symmetric mode) stream whose values fit,
+    cut into chunks in ANY way, is accepted with all default checks on, and reads back exactly *)
+Theorem create_valid_stream n su (chunks : list (list rowT)) :
+  0 <= n ->
+  let stream := concat chunks in
+  StronglySorted klt (map fst stream) ->
+  Forall (fun r => 0 <= fst (fst r) < n /\ 0 <= snd (fst r) < n) stream ->
+  (su = true -> Forall (fun r => fst (fst r) <= snd (fst r)) stream) ->
+  Forall (fun r => fits r = true) stream ->
+  exists c, create dflt fits count n su true true true false chunks = inr c /\
+            c_rows c = stream /\ read_pixels c = stream /\ c_nnz c = zlen stream /\
+            c_sum c = chunk_total count stream /\ c_symm c = su.
+Proof.
+  intros Hn stream Hs Hr Hu Hfit.
+  assert (Hok : Forall (chunk_ok n true (true && su) true) chunks).
+  { pose proof (NoDup_concat_chunks fst chunks (SS_NoDup _ Hs)) as Hnd.
+    apply Forall_forall. intros ch Hch. unfold chunk_ok. split; [|split].
+    - intros _. apply Forall_forall. intros r Hin. rewrite Forall_forall in Hr. apply Hr. apply in_concat. eauto.
+    - intros Ht. simpl in Ht. apply Forall_forall. intros r Hin. specialize (Hu Ht).
+      rewrite Forall_forall in Hu. apply Hu. apply in_concat. eauto.
+    - intros _. rewrite Forall_forall in Hnd. auto. }
+  destruct (create_succeeds dflt fits count n su true true true false chunks Hok Hfit) as [c Hc].
+  - now apply sorted_table_fits_max_size.
+  - exists c. split; [exact Hc|]. apply create_ok_spec in Hc. cbv zeta in Hc.
+    assert (Hid : map (prep false) chunks = chunks) by (unfold prep; apply map_id).
+    rewrite Hid in Hc. tauto.
+Qed.
+End ValidStream.
+
+(** * the step machine and the functional model of create agree on success *)
+Lemma touch_keeps f p tag : lookup f p <> None -> lookup (touch f p tag) p <> None.
+Proof.
+  intros H. rewrite lookup_touch, path_eqb_refl. destruct (lookup f p); [discriminate|contradiction].
+Qed.
+
+Lemma run_chunks_complete dest : forall oks f,
+  forallb (fun b => b) oks = true -> lookup f dest <> None ->
+  exists f', run dest (map SChunk oks) f = (f', true) /\ lookup f' dest <> None.
+Proof.
+  induction oks as [|b t IH]; intros f Hall Hd; simpl.
+  - eauto.
+  - simpl in Hall. apply andb_true_iff in Hall. destruct Hall as [-> Hall]. simpl.
+    apply IH; [exact Hall|]. now apply touch_keeps.
+Qed.
+
+Lemma open_ok dest m f : exists f0, exec_step dest (SOpen m) f = Some f0 /\ lookup f0 [] <> None.
+Proof.
+  destruct m; simpl; eexists; split; try reflexivity.
+  - simpl. discriminate.
+  - rewrite lookup_ensure, path_eqb_refl. destruct (lookup f []); discriminate.
+Qed.
+
+Lemma make_target_ok dest f0 : lookup f0 [] <> None ->
+  exists f2, exec_step dest SMakeTarget f0 = Some f2 /\ lookup f2 dest <> None.
+Proof.
+  intros Hroot. destruct dest as [|x d].
+  - eexists. split; [reflexivity|]. now apply touch_keeps.
+  - eexists. split; [reflexivity|]. rewrite lookup_set, path_eqb_refl. discriminate.
+Qed.
+
+Theorem run_completes m dest oks f :
+  forallb (fun b => b) oks = true -> snd (run dest (create_steps m oks) f) = true.
+Proof.
+  intros Hall. unfold create_steps.
+  destruct (open_ok dest m f) as (f0 & E0 & H0). destruct (make_target_ok dest f0 H0) as (f2 & E2 & H2).
+  assert (Hr1 : run dest [SOpen m; SMakeTarget; SWrite 1; SWrite 2; SWrite 3] f
+                = (touch (touch (touch f2 dest 1) dest 2) dest 3, true)).
+  { cbn [run]. rewrite E0, E2. reflexivity. }
+  assert (Hd1 : lookup (touch (touch (touch f2 dest 1) dest 2) dest 3) dest <> None) by (repeat apply touch_keeps; exact H2).
+  rewrite run_app, Hr1. rewrite run_app.
+  destruct (run_chunks_complete dest oks _ Hall Hd1) as (f3 & Hr2 & Hd2). rewrite Hr2.
+  cbn [run exec_step].
+  pose proof (touch_keeps f3 dest 5 Hd2) as Hd3.
+  destruct (lookup (touch f3 dest 5) dest); [reflexivity|contradiction].
+Qed.
+
+Section Refine.
+Context {V : Type}.
+Notation rowT := (key * V)%type.
+Variable dflt : rowT.
+Variable fits : rowT -> bool.
+Variable count : option (rowT -> Z).
+
+(** for a stream without iterator failures the machine completes exactly when the functional model of create
+    accepts the stream (up to the max_size limit, which valid streams never reach) *)
+Theorem machine_completes_iff_create_ok m dest n su tc es (chunks : list (list rowT)) f :
+  zlen (concat chunks) <= max_size n su ->
+  (snd (create_machine m dest (validate_pixels n true (tc && su) true es) fits (map Some chunks) f) = true
+   <-> exists c, create dflt fits count n su true tc true es chunks = inr c).
+Proof.
+  intros Hmax. unfold create_machine.
+  set (val := validate_pixels n true (tc && su) true es).
+  set (oks := map (item_ok val fits) (map Some chunks)).
+  split.
+  - intros Hrun.
+    assert (Hall : Forall (fun c => item_ok val fits (Some c) = true) chunks).
+    { apply Forall_forall. intros c Hc. destruct (item_ok val fits (Some c)) eqn:E; [reflexivity|exfalso].
+      assert (Hin : In false oks).
+      { unfold oks. rewrite map_map. apply in_map_iff. exists c. auto. }
+      pose proof (run_create_fails m dest oks f Hin) as Hf. congruence. }
+    apply create_succeeds.
+    + rewrite Forall_forall in *. intros c Hc. specialize (Hall c Hc). simpl in Hall.
+      destruct (val c) as [e|c'] eqn:E; [discriminate|]. apply (validate_ok_iff n true (tc && su) true es). eauto.
+    + apply Forall_forall. intros r Hr. apply in_concat in Hr. destruct Hr as (c & Hc & Hr).
+      rewrite Forall_forall in Hall. specialize (Hall c Hc). simpl in Hall.
+      destruct (val c) as [e|c'] eqn:E; [discriminate|]. apply validate_ok_shape in E. subst c'.
+      assert (Hfc : forallb fits c = true).
+      { unfold prep in Hall. destruct es; [now rewrite forallb_sort_rows in Hall|exact Hall]. }
+      rewrite forallb_forall in Hfc. auto.
+    + exact Hmax.
+  - intros [c Hc]. apply run_completes. apply create_ok_spec in Hc. cbv zeta in Hc.
+    destruct Hc as (_ & _ & _ & _ & _ & _ & Hok & Hfit & _).
+    unfold oks. rewrite map_map. apply forallb_forall. intros b Hb. apply in_map_iff in Hb.
+    destruct Hb as (ch & <- & Hch). simpl.
+    rewrite Forall_forall in Hok. specialize (Hok ch Hch).
+    destruct (proj2 (validate_ok_iff n true (tc && su) true es ch) Hok) as [c' Hc']. fold val in Hc'. rewrite Hc'.
+    apply validate_ok_shape in Hc'. subst c'. apply forallb_forall. intros r Hr.
+    rewrite Forall_forall in Hfit. apply Hfit. apply in_concat. exists (prep es ch). split; [|exact Hr].
+    apply in_map. exact Hch.
+Qed.
+End Refine.
